@@ -40,6 +40,10 @@ EXTRA = [
             "Query": {"type": "object", "properties": {"current": {"$ref": "#/components/schemas/DataSource"}, "legacy": {"$ref": "#/components/schemas/Datasource"}}},
             "DataSource": {"type": "object", "properties": {"uid": {"type": "string"}}},
             "Datasource": {"type": "object", "properties": {"name": {"type": "string"}}}}}})),
+    # a forced envelope turns the root's regular fields into fields of the envelope object: references to a SIBLING field
+    # (not a definition) must still name a declared object
+    ("cue", "envelope-sibling-field-references", "package %(pkg)s\n\nlimits: {\n\tmax: int64\n}\ncurrent: limits\nlist: [...limits]\nbyName: [string]: limits\n#Def: {\n\tl: limits\n}\nd: #Def\n"),
+    ("cue", "envelope-definitions-only", "package %(pkg)s\n\n#Limits: {\n\tmax: int64\n}\ncurrent: #Limits\nlist: [...#Limits]\n"),
     ("cue", "enum-member-constant-and-entry", "package %(pkg)s\n\n#Kind: \"x\" | \"y\" @cog(kind=\"enum\")\n#Leaf: {\n\tkind: #Kind & \"x\"\n\tnext?: #Leaf\n}\n#Root: {\n\tleaf: #Leaf\n\tall: [...#Leaf]\n\tbyName: [string]: #Leaf\n}\n"),
 ]
 
@@ -77,7 +81,12 @@ def run_parsers(ctx):
         pkg = "x%03d%s" % (n, fmt[0])
         path = _write_input(d, pkg, fmt, text % {"pkg": pkg} if fmt == "cue" else text)
         y = os.path.join(d, pkg + ".yaml")
-        open(y, "w").write(sc.pipeline_yaml(fmt, path, pkg, {}))
+        ytext = sc.pipeline_yaml(fmt, path, pkg, {})
+        if tag.startswith("envelope-"):
+            ytext = ytext.replace("      package: %s\n" % pkg, "      package: %s\n      forced_envelope: Envelope\n" % pkg, 1)
+            if "forced_envelope" not in ytext:
+                raise core.Inconclusive("could not set forced_envelope in the pipeline of %s" % tag)
+        open(y, "w").write(ytext)
         jobs.append({"id": 90000 + n, "fmt": fmt, "yaml": y, "tag": "extra/" + tag})
     jf = os.path.join(d, "jobs.ndjson")
     open(jf, "w").write("".join(json.dumps(j) + "\n" for j in jobs))
